@@ -12,6 +12,8 @@ use std::io;
 use std::io::BufRead;
 use std::iter::Peekable;
 use std::slice::Iter;
+use std::ops::Index;
+use std::cmp::max;
 use std::fmt::{self, Debug, Display};
 verus! {
 
@@ -193,6 +195,13 @@ pub fn token_reader<'a>(v: &'a Vec<SymbolicBDDToken>) -> (r: Peekable<Iter<'a, S
 pub open spec fn toks(p: Peekable<Iter<'_, SymbolicBDDToken>>) -> Seq<SymbolicBDDToken> {
     Seq::new(rest(p).len(), |i: int| *rest(p)[i])
 }
+
+// [A15] the line formatter of src/bin/rsbdd.rs (generic over the symbol type; prints one table row) is not under contract:
+// assumed to need only a leaf as its result argument (its `unreachable!()` arm)
+#[verifier::external_body]
+pub fn print_sized_line<B, D>(labels: &Vec<D>, widths: &B, result: &BDD)
+    requires !(*result is Choice)
+{ unimplemented!() }
 
 // [A14] output macros: effect on stdout/stderr not modelled
 pub assume_specification [std::io::_eprint] (args: core::fmt::Arguments<'_>);
